@@ -1215,7 +1215,7 @@ var c19ResKeys = []string{"_id", "_rev", "_cv", "_exp", "_revisions", "_attachme
 type c19Member struct {
 	key     string
 	kind    c19Kind
-	escaped bool // the first byte of the key is written as _ in the text
+	escaped bool // the first byte of the key is written as a \u00XX escape in the text
 }
 
 func (m c19Member) keyText() string {
@@ -1293,7 +1293,7 @@ func c19MustNotSet(path string, m c19Member) bool {
 	case "PBlip":
 		return k == "_sync" || k == "_id" || k == "_rev" || k == "_deleted" || k == "_revisions"
 	case "PImport":
-		return k == "_id" || k == "_rev" || k == "_exp" || k == "_revisions"
+		return k == "_id" || k == "_rev" || k == "_exp" || k == "_revisions" || k == "_sync"
 	}
 	return false
 }
@@ -1386,7 +1386,7 @@ func (e *c19Env) reservedStream() {
 					continue // malformed attachment metadata belongs to C14
 				}
 				e.reservedCase("exhaustive", p, []c19Member{{key: k, kind: kind}, data})
-				if strings.HasPrefix(k, "_") && k != "_attachments" {
+				if strings.HasPrefix(k, "_") {
 					e.reservedCase("exhaustive", p, []c19Member{data, {key: k, kind: kind, escaped: true}})
 				}
 			}
@@ -1407,7 +1407,7 @@ func (e *c19Env) reservedStream() {
 				continue
 			}
 			seen[k] = true
-			ms = append(ms, c19Member{key: k, kind: kind, escaped: strings.HasPrefix(k, "_") && k != "_attachments" && e.rnd.Chance(20)})
+			ms = append(ms, c19Member{key: k, kind: kind, escaped: strings.HasPrefix(k, "_") && e.rnd.Chance(20)})
 		}
 		if e.rnd.Bool() {
 			ms = append(ms, data)
